@@ -84,6 +84,17 @@ def seeded_variants(prop):
     return out
 
 
+def benign_variants():
+    """behaviour-preserving refactorings kept under /verif/benign: every check must stay silent on each of them"""
+    import glob
+    out = []
+    for patch in sorted(glob.glob(os.path.join(HERE, "benign", "*", "patch.diff"))):
+        d = os.path.dirname(patch)
+        out.append({"id": "benign:" + os.path.basename(d), "props": [], "rule": None, "kind": "benign", "edits": [], "also": (),
+                    "patch": patch})
+    return out
+
+
 def run_one(args):
     variant, prop, root, baseline = args
     t0 = time.time()
@@ -115,6 +126,7 @@ def run_for_property(prop, root, jobs=16, verbose=False):
     from selftest.variants import VARIANTS
     mine = [v for v in VARIANTS if prop in v["props"]]
     mine += seeded_variants(prop)
+    mine += benign_variants()
     if not mine:
         return {"variants": 0}
     baseline, _ = _bad_keys(prop, root)
